@@ -27,8 +27,10 @@ func runC18(c *Ctx) {
 	c.Rule("C18.O5", "E4", "lmux.Stop closes each underlying listener and the close channel; ChanListener.Accept selects on the close channel", 2)
 	c.Rule("C18.O7", "E4", "the blocking readers' deferred clean-up removes the connection from the tracked set (delete(engine.conns, key) under Engine.mux), reports the close and releases the load slot on every path: Shutdown waits for the set to drain", 2)
 	c.Rule("C18.O8", "E4", "every torn-down connection reaches the close notification that releases the connection WaitGroup (same rule as C03.O9): Stop waits on it", 1)
+	c.Rule("C18.O9", "E5", "the listener mux's close channel is created once, in its constructor: the channel listeners copy it when they are made, so a later re-assignment leaves them waiting on a channel nobody closes", 1)
 	c.Rule("C18.O6", "E5", "connection WaitGroup pairing (same rule as C03.O3)", 2)
 	c18ReaderCleanup(c)
+	c18CloseChanOnce(c)
 	c03AlwaysNotifies(c, "C18.O8")
 
 	L := c.Locks()
@@ -589,4 +591,17 @@ func c18ReaderCleanup(c *Ctx) {
 		}
 		c.Cond(bad == "", "C18.O7", key, c.FnPos(cl), "untrack under Engine.mux, _onClose and decrease on every path", bad)
 	}
+}
+
+// c18CloseChanOnce: O9.
+func c18CloseChanOnce(c *Ctx) {
+	writers := map[string]bool{}
+	for _, f := range c.pkgFuncs("lmux") {
+		for _, st := range c.P.StoresTo(f, "lmux.ListenerMux.chClose") {
+			_ = st
+			writers[c.P.FuncName(ir.Outermost(f))] = true
+		}
+	}
+	got := strings.Join(sortedKeys(writers), ",")
+	c.Cond(got == "lmux.New", "C18.O9", "writers of lmux.ListenerMux.chClose", "", got, "the close channel is assigned in ["+got+"], expected only the constructor: Mux() hands the channel's value to the channel listeners, so after a re-assignment Stop closes a channel their Accept does not select on and the HTTP listen goroutines stay blocked (Stop hangs)")
 }
